@@ -1,7 +1,7 @@
 #!/bin/bash
-# usage: tools/seeded_collect.sh <Cxx> <suffix>  -- copy a sub-agent's deliverables, confirm, evaluate
-id=$1; suf=${2:-b}
-d=/tmp/mut/$id/_out
+# usage: tools/seeded_collect.sh <Cxx> <suffix> [agent scratch root]  -- copy a sub-agent's deliverables, confirm, evaluate
+id=$1; suf=${2:-b}; root=${3:-/tmp/mut}
+d=$root/$id/_out
 mkdir -p /verif/seeded/$id-$suf && cp $d/patch.diff $d/demo.py $d/meta.json /verif/seeded/$id-$suf/ || exit 2
 /verif/tools/seeded_confirm.sh $id-$suf 2>&1 | grep -v WARNING
 /verif/tools/seeded_eval.sh $id-$suf $id 2>&1 | grep -v WARNING
